@@ -700,8 +700,15 @@ def handle (j : Json) : Json := Id.run do
   let hs := holdsC07 prio (!kcfg.dry) trees impls
   -- the scenario's `prop` says whose clauses decide `holds` (C07 by default; C03 / C17 run this engine as a second pass)
   let prop := jstr sc "prop"
+  -- C04 "exactly as a wet run does": a dry kill cycle goes through the prekill-hook protocol like a wet one - before it settles
+  -- on a victim (its `(dry)` record) the hook that matches the victim has been fired, unless the window is over
+  let dryHooks : List String :=
+    if kcfg.dry then
+      ((holdsC07 prio true trees impls).viol.filter fun c => c == "hook_fired_for_victim" || c == "fallback_fires_again").map
+        fun _ => "C04.dry_fires_hooks_like_wet"
+    else []
   let allViol := (hs.viol ++ holdsC03Cycles kcfg (tins0.map fun (_, _, roots) => roots) impls ++
-    holdsC01Cycles kcfg (tins0.map fun (_, views, roots) => (views, roots)) impls ++ holdsC04Dry kcfg impls).eraseDups
+    holdsC01Cycles kcfg (tins0.map fun (_, views, roots) => (views, roots)) impls ++ holdsC04Dry kcfg impls ++ dryHooks).eraseDups
   let viol := allViol.filter fun c =>
     if prop == "C03" then c.startsWith "C03."
     else if prop == "C01" then c.startsWith "C01."
